@@ -1052,7 +1052,7 @@ def corpus():
 
 
 def run(ck: common.Check):
-    ck.prove(["GeffProps.C04"])
+    ck.prove(["GeffProps.C04", "GeffProps.C04Gen"])
     ck.rule = ("cases = corpus + 6 conformant bases x the mechanically generated single-fault catalogue "
                "(every node: delete, group<->array, every other dtype, rank+-1/0-d/length+-1, added members; "
                "every metadata field: drop/wrong type/bad value, per property entry: drop/extra/path-like extra keys (p/, /p, p/values, ./p, ../props/p, blanks, dots)/move/every dtype/"
